@@ -3,7 +3,7 @@ import numpy as np
 
 from pvmon import netgen
 from pvmon.monitors import Obs, mon_c01
-from pvmon.props.common import rng_for, run_pipeflow, solver_configs
+from pvmon.props.common import suite_cases, run_suite_case, rng_for, run_pipeflow, solver_configs
 
 MANIFEST = {'text': 'Held on every returned pipeflow of the seeded workload: nodal and global mass balances rebuilt from the user tables are at round-off (1e-16..1e-13 kg/s observed) for all component kinds, label schemes and solver configurations exercised; exploration is the honest level because the quantifier ranges over all networks.', 'note': "Trusts the monitor's own incidence reconstruction (pi valves insert a virtual node) and the 1e-10 relative bound; nets the generator does not produce are not covered.", 'technique': 'runtime monitoring: conservation oracle over result tables after every real pipeflow on generated networks'}
 
@@ -46,7 +46,10 @@ def gen_cases(tier, seed):
         cases.append({"seed": seed, "i": 10 ** 6 + k, "fluid": FLUIDS[k % len(FLUIDS)],
                       "features": ["valves", "mass_storage", "multi_grid"], "labels": LABELS[k % len(LABELS)],
                       "n": [300, 800, 2000][k % 3]})
-    return cases
+    _cases = cases
+    if tier == "thorough":
+        _cases = list(_cases) + suite_cases()
+    return _cases
 
 
 def make(case):
@@ -60,6 +63,12 @@ def make(case):
 
 
 def run_case(case, ctx):
+    if case.get("kind") == "repo_suite":
+        obs = Obs()
+        n = run_suite_case(case, "C01", obs)
+        rec = {"nontrivial": n > 0, "sample": {"repo_suite_part": case["part"], "pipeflow_calls_observed": n}, "evaluations": max(n, 1)}
+        rec.update(obs.record())
+        return rec
     spec, opts = make(case)
     net = netgen.build(spec)
     obs = Obs()
